@@ -306,6 +306,16 @@ def _connect_env(h, kind):
         log.append(("sleep", a[0]))
         return None
 
+    clock = []  # (position in the log, term) of every clock read
+
+    def now(it2, a, k):
+        t = it2.ctx.fresh("real", "now")
+        if clock:
+            it2.ctx.add_fact(t.term >= clock[-1][1].term)
+        clock.append((len(log), t))
+        return t
+
+    it.models[id(_time.time)] = ModelFn("time.time", now)
     it.models[id(_time.sleep)] = ModelFn("time.sleep", sleep)
     it.models[id(serial.serial_for_url)] = ModelFn("serial_for_url", attempt([("ok", None), ("serial-error", serial.SerialException)]))
     it.models[id(socket.create_connection)] = ModelFn(
@@ -365,7 +375,17 @@ def _connect_env(h, kind):
             want = ["attempt"] + (["check_connection"] if kind == "async-tcp" else [])
         else:
             want = ["attempt", "start", "connect"]
-        return names == want and log[0][1] == "ok"
+        if not (names == want and log[0][1] == "ok"):
+            return False
+        if kind.endswith("tcp"):
+            # a new link starts with both watchdog timers stamped after the link came up (the silence of the
+            # previous link, or of the time spent dialling, must not count against the new one)
+            after = [t for pos, t in clock if pos >= 1]
+            for name in ("tcp_check_timer", "tcp_disconnect_timer"):
+                v = gw.attrs.get(name)
+                if not any(v is t for t in after):
+                    return False
+        return True
 
     it.models[id(iteration_is_attempt_then_sleep)] = ModelFn("iteration_is_attempt_then_sleep", boundary)
     it.models[id(connected_once)] = ModelFn("connected_once", success)
